@@ -11,6 +11,8 @@ Line == TraceLog[l]
 Range(s) == {s[i] : i \in 1..Len(s)}
 Triples(m) == {<<e[1], e[2], e[3]>> : e \in Range(m)}
 
+DomainChoices(e) == IF ~e.noUser /\ e.reqDomain # "" THEN {e.reqDomain} ELSE {"", e.tmplDomain}
+UserChoices(e) == IF ~e.noUser THEN {e.reqUser} ELSE {"", e.tmplUser}
 Bad(e) ==
   CASE e.ev = "parse" ->
          LET want == Parse(e.text) IN
@@ -29,11 +31,18 @@ Bad(e) ==
     [] e.ev = "download" ->
          (IF ~e.forcedOK THEN {"G_C19_GatewayControlledSettings"} ELSE {})
          \cup (IF ~e.templateKept THEN {"G_C19_TemplateSettingsKept"} ELSE {})
+         \* a file is the template overlaid with what is forced for its own request: the same request served by a
+         \* handler without history gives the same settings, and the domain / user name written are the request's
+         \* (when the gateway sets them) or else the template's - never anybody else's
+         \cup (IF ~e.sameAsFresh THEN {"G_C19_FileDependsOnTemplateAndRequestOnly"} ELSE {})
+         \cup (IF e.domain \notin DomainChoices(e) THEN {"G_C19_DomainFromRequestOrTemplate"} ELSE {})
+         \cup (IF e.username \notin UserChoices(e) THEN {"G_C19_UserFromRequestOrTemplate"} ELSE {})
          \cup (IF ~e.crlf \/ e.malformed > 0 \/ e.dups > 0 THEN {"G_C19_WellFormedLines"} ELSE {})
          \cup (IF ~e.settingsEqual THEN {"G_C19_ReadBackEqual"} ELSE {})
     [] OTHER -> {"G_UnknownEvent"}
 Cell(e) == CASE e.ev = "parse" -> <<"parse", IF e.ok THEN "ok" ELSE "err", Len(e.text)>>
              [] e.ev = "field" -> <<"field", e.kind, IF e.nonDefault THEN 1 ELSE 0>>
+             [] e.ev = "download" -> <<"download", IF e.split THEN "split" ELSE "nosplit", e.pos>>
              [] OTHER -> <<e.ev, e.cls, 0>>
 TInit == l = 1 /\ viol = {} /\ cover = {}
 TNext == /\ l <= Len(TraceLog)
